@@ -70,7 +70,7 @@ def mk3d(s, frame="base_link", ego=None):
     )
 
 
-CAMS = {"CAM_FRONT": FrameID.CAM_FRONT, "CAM_BACK": FrameID.CAM_BACK, "CAM_TRAFFIC_LIGHT": FrameID.CAM_TRAFFIC_LIGHT,
+CAMS = {"CAM_FRONT": FrameID.CAM_FRONT, "CAM_BACK": FrameID.CAM_BACK, "CAM_FRONT_RIGHT": FrameID.CAM_FRONT_RIGHT, "CAM_FRONT_LOWER": FrameID.CAM_FRONT_LOWER, "CAM_TRAFFIC_LIGHT": FrameID.CAM_TRAFFIC_LIGHT,
         "CAM_TRAFFIC_LIGHT_NEAR": FrameID.CAM_TRAFFIC_LIGHT_NEAR, "CAM_TRAFFIC_LIGHT_FAR": FrameID.CAM_TRAFFIC_LIGHT_FAR}
 
 
